@@ -364,7 +364,7 @@ class NgramVectorizer(BaseEstimator, TransformerMixin):
         )
         # noinspection PyTupleAssignmentBalance
         (token_sequences, _, _, _) = preprocess_token_sequences(
-            X, self._token_dictionary_,
+            X, self._token_dictionary_, masking=self.mask_string,
         )
 
         indptr = [0]
